@@ -56,7 +56,9 @@ GENERIC = (
     "module-level 'warn once' sets; astropy global equivalencies enabled without `with`; np.ogrid-style open-grid queries; parallelograms taken for "
     "rectangles; a mask object modified by being used; zero-area polygons; white space inside parentheses; NumPy print options / other process-wide "
     "settings; non-float64 query coordinates re-typed in place; `~` in file names; N-D `PixCoord.rotate`; exchanged compound operands; alias keys "
-    "(`width`, `point`) through `update`; plot origins with one zero component; annulus holes exactly similar to the outline.")
+    "(`width`, `point`) through `update`; plot origins with one zero component; annulus holes exactly similar to the outline; needle shapes (aspect >= 1e5); int-typed sizes reassigned to "
+    "floats; vertices on the line y = x; mirrored-parity WCS in one direction only; `fill=`; range limits with many digits; Cartesian-representation "
+    "SkyCoords; rewriting identical content; stacked file extensions (.reg.fits); 0-d arrays as sizes; `|=` with a Meta object of the other kind.")
 
 LEFT = (
     "Think about what is LEFT: e.g. the order in which two independent features are applied; behaviour at the exact edge of a documented domain "
